@@ -300,6 +300,9 @@ fn systematic_histories() -> Vec<History> {
         ),
         ("inherited-empty", "VS_INHERITED=", "true", "VS_INHERITED=again"),
         ("inherited-export-n", "export -n VS_INHERITED", "VS_INHERITED=still-not-exported", "export VS_INHERITED"),
+        // (finding W: an alias whose expansion starts with its own name, used in a function body,
+        // must not be expanded once more each time the state is read back)
+        ("alias-self-in-func", "alias a1='a1 pre'", "f1() { a1 x; }", "alias a2='echo other'"),
         // (finding T: the user's EXIT trap replaces the one that writes the state)
         ("trap-exit", "export VE1=one; trap 'true' EXIT", "VE1=\"$VE1 two\"; VS1=after-trap", "trap - EXIT"),
         // (seed 103 of the sweep: unset, then set again as a plain shell variable)
@@ -940,6 +943,9 @@ pub struct ExprCase {
 fn tricky_expressions() -> Vec<&'static str> {
     vec![
         "echo plain",
+        "set -e; unset OLDPWD; echo errexit-without-oldpwd",
+        "set -eu; echo errexit-nounset",
+        "cd /; unset OLDPWD; set -e; echo still-zero",
         "echo trailing-backslash \\",
         "printf 'a\\nb\\n' # trailing comment",
         "printf 'no-newline-at-end'",
@@ -1091,6 +1097,9 @@ fn run_c13_verbatim_real(seed: u64, rep: &mut RealReport) {
             cases.push(ExprCase { real_history: false, real_expr: true, script_mode, exprs: vec![other, third, e] });
         }
     }
+    // (in ONE shell `set -e` outlives its test case: the next failing command ends the script,
+    // which is the mode's nature and not a matter of verbatim delivery)
+    cases.retain(|c| !(c.script_mode && c.exprs.len() > 1 && c.exprs.iter().any(|e| e.contains("set -e"))));
     let _ = std::fs::create_dir_all(format!("{}/replays", crate::out_dir()));
     let mut reported = 0;
     for c in &cases {
